@@ -156,6 +156,7 @@ type vkPeer struct {
 	toNode      []wire.Message
 	sendHeaders bool
 	announced   map[string]bool
+	maxHeaders  int // reply limit of getheaders (0: unlimited)
 }
 
 func vkNewPeer(t *vkTree, tip string) *vkPeer {
@@ -208,6 +209,9 @@ func (p *vkPeer) handle(m wire.Message) {
 			start = 0
 		}
 		names := p.best[start:]
+		if p.maxHeaders > 0 && len(names) > p.maxHeaders {
+			names = names[:p.maxHeaders] // a getheaders reply carries at most this many headers (2000 in Bitcoin)
+		}
 		p.send(p.tree.headerMsg(names...))
 		for _, n := range names {
 			p.announced[n] = true
